@@ -52,6 +52,12 @@ class Opaque:
     def __repr__(self):
         return f"Opaque({self.tag})"
 
+class NpScalar:
+    """input marker: a NumPy scalar (np.float64 / np.int64 / np.datetime64) rather than a Python number"""
+    __slots__ = ("value",)
+    def __init__(self, value):
+        self.value = value
+
 NAN_HEX = "7ff8000000000000"
 
 def dtype_kind(dtype):
